@@ -171,9 +171,16 @@ class AllowedDerivation(DescriptorBase):
                     r += "/%d" % idx
             if isinstance(idx, list):
                 r += "/<"
+                # a wildcard inside a set (accepted by parse_element) is stored as None
                 r += ";".join(
                     [
-                        str(i) if i < HARDENED_INDEX else str(i - HARDENED_INDEX) + "h"
+                        "*"
+                        if i is None
+                        else (
+                            str(i)
+                            if i < HARDENED_INDEX
+                            else str(i - HARDENED_INDEX) + "h"
+                        )
                         for i in idx
                     ]
                 )
